@@ -1,9 +1,10 @@
-\* C43 thorough: 3 threads x 2 rounds with the code's PASSIVE_SPIN = 5, safety (2.3M states).
+\* C43 thorough: 3 threads x 2 rounds, PASSIVE_SPIN = 2, safety + liveness.
 SPECIFICATION Spec
 CONSTANTS
   Threads = {1, 2, 3}
   Rounds = 2
-  PassiveSpin = 5
+  PassiveSpin = 2
   Spurious = FALSE
   WakeOn = 2
 INVARIANTS TypeOK MutualExclusion HeldImpliesLocked NoUnlockBug SleeperCovered
+PROPERTIES NoLostWakeup AllDone
